@@ -82,6 +82,7 @@ def mk(zone, u, prov):
 
 
 class Pairs(Sub):
+    ambient = True
     name = "aware_pairs"
     n = {"quick": 14000, "thorough": 400000}
     shards = {"quick": 4, "thorough": 8}
@@ -137,6 +138,7 @@ ABS_FAMILY = {"abs(b - a)", "abs(a - b)", "interval(a, b, absolute=True)", "inte
 
 
 class NaiveDate(Sub):
+    ambient = True
     name = "naive_date_fixed"
     backends = ("py",)
     n = {"quick": 6000, "thorough": 150000}
